@@ -68,6 +68,7 @@ var tagForms = []CorpusItem{
 	{"fromas", "{% from 'macros' import m as g, n %}{{ g(3) }}{{ n() }}"},
 	{"do", "{% do f(1) %}done"},
 	{"verbatim", "{% verbatim %}raw text{% endverbatim %}"},
+	{"verbatim2", "{% verbatim %}one {{ x }}{% endverbatim %}-{{ a }}-{% verbatim %}two {% if %}{% endverbatim %}!{% if a %}y{% endif %}{% verbatim %}{% endverbatim %}"},
 	{"blockfn", "{% block b %}x{% endblock %}{{ block('b') }}"},
 	{"nested", "{% for v in arr %}{% if v %}{{ v }}{% else %}-{% endif %}{% endfor %}"},
 	{"trim", "a {{- a -}} b {%- if a -%} c {%- endif -%} d"},
